@@ -95,12 +95,90 @@ def bv(v):
     raise Unsupported("not an int: %r" % (type(v),))
 
 
+_refine = {}   # z3 ast id -> (lo, hi): bounds implied by the current path condition
+
+
+def reset_refinements():
+    _refine.clear()
+
+
+def _num(e):
+    return e.as_signed_long() if z3.is_bv_value(e) and e.size() == W else None
+
+
+def _narrow(e, lo, hi):
+    if z3.is_bv_value(e):
+        return
+    k = e.get_id()
+    cur = _refine.get(k)
+    if cur is not None:
+        lo = cur[1] if lo is None else (lo if cur[1] is None else max(lo, cur[1]))
+        hi = cur[2] if hi is None else (hi if cur[2] is None else min(hi, cur[2]))
+    _refine[k] = (e, lo, hi)
+
+
+def refine_from(b, positive=True):
+    """learn interval facts from a path-condition conjunct (signed comparisons with a numeral)"""
+    try:
+        if z3.is_not(b):
+            return refine_from(b.arg(0), not positive)
+        if z3.is_and(b) and positive:
+            for a in b.children():
+                refine_from(a, True)
+            return
+        if z3.is_or(b) and not positive:
+            for a in b.children():
+                refine_from(a, False)
+            return
+        if not z3.is_app(b) or b.num_args() != 2:
+            return
+        k = b.decl().kind()
+        x, y = b.arg(0), b.arg(1)
+        if not z3.is_bv(x) or x.size() != W:
+            return
+        # normalise to  x OP y  with OP in {<=, <}
+        if k == z3.Z3_OP_SGEQ:
+            x, y, k = y, x, z3.Z3_OP_SLEQ
+        elif k == z3.Z3_OP_SGT:
+            x, y, k = y, x, z3.Z3_OP_SLT
+        if k == z3.Z3_OP_SLEQ:
+            if not positive:       # not (x <= y)  ==  y < x
+                x, y, k = y, x, z3.Z3_OP_SLT
+        elif k == z3.Z3_OP_SLT:
+            if not positive:       # not (x < y)  ==  y <= x
+                x, y, k = y, x, z3.Z3_OP_SLEQ
+        elif k == z3.Z3_OP_EQ:
+            if positive:
+                nx, ny = _num(x), _num(y)
+                if ny is not None:
+                    _narrow(x, ny, ny)
+                elif nx is not None:
+                    _narrow(y, nx, nx)
+            return
+        else:
+            return
+        nx, ny = _num(x), _num(y)
+        strict = 1 if k == z3.Z3_OP_SLT else 0
+        if ny is not None:
+            _narrow(x, None, ny - strict)
+        elif nx is not None:
+            _narrow(y, nx + strict, None)
+    except z3.Z3Exception:
+        return
+
+
 def rng(v):
     if isinstance(v, bool):
         return (int(v), int(v))
     if isinstance(v, int):
         return (v, v)
     if isinstance(v, SInt):
+        r = _refine.get(v.e.get_id()) if _refine else None
+        if r is not None:
+            lo = v.lo if r[1] is None else max(v.lo, r[1])
+            hi = v.hi if r[2] is None else min(v.hi, r[2])
+            if lo <= hi:
+                return (lo, hi)
         return (v.lo, v.hi)
     if isinstance(v, SBool):
         return (0, 1)
